@@ -162,11 +162,11 @@ Section Proofs.
   Qed.
 
   Lemma enum_targets_flat c kv doc : forall fs,
-      (forall fd, In fd fs -> flat_field c kv doc fd) -> enum_targets fs = Ok [].
+      (forall fd, In fd fs -> flat_field c kv doc fd) -> enum_targets fs = [].
   Proof.
-    induction fs as [|fd fs IH]; intro H; cbn [enum_targets]; [reflexivity|].
-    destruct (H fd (or_introl eq_refl)) as [f [Hty _]]. rewrite Hty. cbn [enum_target bind].
-    rewrite (IH (fun fd' Hin => H fd' (or_intror Hin))). reflexivity.
+    unfold enum_targets. induction fs as [|fd fs IH]; intro H; cbn [flat_map]; [reflexivity|].
+    destruct (H fd (or_introl eq_refl)) as [f [Hty _]]. rewrite Hty. cbn [enum_target enum_leaf_target app].
+    exact (IH (fun fd' Hin => H fd' (or_intror Hin))).
   Qed.
 
   Lemma defaults_flat c kv doc (a : list (pystr * pyval)) : forall fs,
